@@ -83,7 +83,7 @@ EXT_STREAM = ["h5", "xtc", "trr", "dcd", "nc", "mdcrd", "xyz", "xyz.gz", "lammps
 ATOMS = [1, 2, 3, 8, 9, 10, 11, 12, 33, 100, 1000]
 MAGS = [1e-3, 0.1, 3.0, 3.0, 3.0, 50.0, 50.0, 99.9, 100.1, 999.9, 1000.1, 9999.9, 10000.1, 2e4, 1e5, 3e6]
 TIME_KINDS = ["default", "nonuniform", "nonuniform", "large", "large-fine", "negative", "exp"]
-CELL_KINDS = ["none", "cubic", "ortho", "tric", "tric", "pf-ortho", "pf-tric"]
+CELL_KINDS = ["none", "cubic", "ortho", "tric", "tric", "pf-ortho", "pf-tric", "pf-mixed"]
 NCASES = {"quick": 10000, "thorough": 50000}
 FLOORS = {"quick": dict({"roundtrip.shape": 600, "roundtrip.xyz": 4500, "roundtrip.time": 2500, "roundtrip.cell": 4000,
                          "independent.layout": 600, "independent.shape": 550, "independent.xyz": 4500, "independent.time": 2500,
@@ -154,7 +154,7 @@ def gen_cases(tier, seed):
             for na in ATOMS:
                 for mag in mags:
                     for sign in ("mixed", "+", "-"):
-                        for cell in ("none", "ortho", "tric", "pf-tric"):
+                        for cell in ("none", "ortho", "tric", "pf-tric", "pf-mixed"):
                             c = dict(i=i, seed=common.case_seed(seed, "C01grid", i), ext=ext, nf=2, na=na, mag=float(mag),
                                      dist=("spread", "shell")[i % 2], sign=sign, time=("nonuniform", "large", "default")[i % 3], cell=cell,
                                      cellscale=(1.0, 20.0)[(i // 2) % 2], top=("ident", "random")[(i // 4) % 2])
@@ -257,8 +257,13 @@ def _build(case):
         per = ck.startswith("pf-")
         kind = {"cubic": "cubic", "ortho": "ortho", "pf-ortho": "ortho"}.get(ck)
         cells = []
-        for _ in range(nf if per else 1):
+        for f in range(nf if per else 1):
             kk = kind or common.CELL_KINDS[2 + int(rng.integers(len(common.CELL_KINDS) - 2))]
+            if ck == "pf-mixed":
+                # the cell CLASS changes along the trajectory: rectangular first frame(s), skewed later (a box that starts to
+                # shear, or two runs joined) — or the other way round
+                first_rect = bool(case["seed"] % 3)
+                kk = "ortho" if (f == 0) == first_rect or (f and rng.random() < 0.3) else kk
             cells.append(common.random_cell(rng, kk))
         if not per:
             cells = cells * nf
